@@ -7,7 +7,7 @@ EXTRA = ["fidelity of stored points/values: the new item's point is imgv(evolven
 
 
 def run(tier, seed):
-    return mc.run_check(PID, tier, seed, WHICH, "c06", EXTRA)
+    return mc.run_check(PID, tier, seed, WHICH, "c06", EXTRA, post=mc.d7_obligation, known_matcher=mc.d7_matcher)
 
 
 def replay(path):
